@@ -15,6 +15,8 @@ groups joined by '', ' ', '+' or ' + '  is rendered to text by this module and w
 run; the single groups are also the roots of a depth-1 operator walk.  A wrong string is attributed to
 its smallest sub-derivation that is wrong on its own; the signature names that shape (atoms
 abstracted): 'atoms:str:nXm' = leading count in front of one element carrying its own count.
+The count cross (count_cross) adds, for every count position and nesting depth, every spelling of a count
+(SHAPES) followed by everything that can follow it; its cells are the lists 'cross:<position><depth>:<follower>'.
 
 Argument histories (third component, class ArgModel): one caller-owned argument object, formula(c)
 called repeatedly with the caller updating c in place in between; see META rule (3)."""
@@ -30,7 +32,11 @@ META = dict(
           "tier lists (element = atom token x own count; implicit group = leading count x adjacent elements; "
           "explicit group = parenthesised composite x group count, nested twice; composite = groups joined by "
           "'', ' ', '+', ' + '), each tree rendered to text and weighed by the module, parsed by the library; "
-          "distinct = distinct text; non-trivial = at least one written count or two parts.  Every single-group "
+          "distinct = distinct text; non-trivial = at least one written count or two parts.  Count cross: every count "
+          "position (leading count, element count, group count; at top level, after another group, and nested inside one "
+          "/ two parenthesised groups) x every count spelling of SHAPES (2, 12, 0.5, .5, 2.5, 12.5, '2.', 10.25) x every "
+          "follower (end of string or ')' + enclosing count, next atom, '(' group, and atom / group after ' ', '+', ' + ', "
+          "the follower's own leading / group count running over the spellings too), as far as joinable.  Every single-group "
           "string (bare and parenthesised) is also the root of a depth-1 operator walk.  (3) argument histories: for "
           "one caller-owned argument object c of every initializer kind (mapping, nested list, tuple holding a list, "
           "formula, string, blank string, None, atom) every sequence of the events formula(c) / c updated in place by "
@@ -40,17 +46,23 @@ META = dict(
                      "reduced operand alphabet; string derivations: lists of str_tiers('quick') - leading count "
                      "{-, 2, 0.5, 3} x 8 atom tokens (element, D, isotope, ions, isotope ion) x own count {-, 2, 0.5} "
                      "for one and two elements per group in full, two groups x 3 separators, parenthesised and "
-                     "twice nested forms over reduced alphabets; argument histories of <= 5 events",
+                     "twice nested forms over reduced alphabets; count_cross('quick'): 3 positions x 8 spellings x 9 followers "
+                     "x 4 counted atom kinds at top level (follower leading count: all spellings), inside one parenthesised group "
+                     "over reduced context (enclosing count: all spellings where it follows directly); argument histories of <= 5 events",
                thorough="all operator sequences of depth <= 3 over the "
                         "full alphabet, depth 4 over the reduced one, second atom alphabet (T, isotope ions); string "
                         "derivations: str_tiers('thorough') (count spellings 3, 1.5, 10, '.5' added, three elements per "
-                        "group, larger reduced alphabets) over both atom alphabets; argument histories of <= 6 events"),
+                        "group, larger reduced alphabets) and count_cross('thorough') (full context also inside one group, inside two "
+                        "groups, every cell also after another group, two follower atoms) over both atom alphabets; "
+                        "argument histories of <= 6 events"),
     assumptions=["neutral element / isotope masses are read from the library (their correctness is C06)",
                  "multipliers are dyadic rationals, so exact Fraction counts equal float counts to 1e-12",
                  "a formula is a value: after it has been built it does not follow later in-place changes that the caller "
                  "makes to the list / mapping / formula it was built from (the library copies with _immutable)",
                  "strings: 'n X_m' is n times the part 'X_m'; a leading count belongs to the adjacent elements that "
                  "follow it up to the next separator, parenthesis or white space (the library's documented grouping rule)",
+                 "count spellings are those of the guide's grammar (count :: number | fraction, fraction :: ([1-9][0-9]* | 0)? "
+                 "'.' [0-9]*), so '2.' is the count 2 and '.5' the count 0.5; a bare '.' and counts with leading zeros are left out",
                  "strings left out because the text does not say how they split into parts: an unseparated group after "
                  "a group with a leading count ('2H2(OH)'), a leading count directly after ')' or after ') ' without a "
                  "group count ('(HO)2H' is generated only as group count; '(HO) 2H' is not generated), a space between a "
@@ -260,6 +272,10 @@ def t_nontrivial(tree):
     return (k == "x" and bool(tree[3])) or len(tree[1]) > 1 or any(t_nontrivial(g) for g in tree[1])
 
 
+def _first_atom(tree):
+    return tree[1] if tree[0] == "e" else _first_atom((tree[2] if tree[0] == "i" else tree[1])[0])
+
+
 def _tt(x):
     return tuple(_tt(y) for y in x) if isinstance(x, (list, tuple)) else x
 
@@ -364,12 +380,98 @@ def str_tiers(tier):
     return L
 
 
+# Count cross: every count POSITION x every count SHAPE x everything that can FOLLOW the counted part.
+# The spellings of a count (guide: count :: number | fraction, fraction :: ([1-9][0-9]* | 0)? '.' [0-9]*):
+# integer, several digits, fraction below one with and without the leading zero, decimal with an integer part of one
+# and of two digits, trailing point, two decimals.  All values are dyadic, so the Fraction weight is exact in floats.
+SHAPES = ("2", "12", "0.5", ".5", "2.5", "12.5", "2.", "10.25")
+CROSS_POSITIONS = ("lead", "elem", "group")
+CROSS_FOLLOWS = ("end", "atom", "paren", "blank-atom", "plus-atom", "blank-plus-blank-atom",
+                 "blank-paren", "plus-paren", "blank-plus-blank-paren")
+_FSEP = {"blank": " ", "plus": "+", "blank-plus-blank": " + "}
+
+
+def _ig(n, *es):
+    return ("i", n, tuple(es))
+
+
+def cross_carriers(pos, s, atoms, others):
+    """The part that carries the count s in the position: leading count 's X o', element count 'o X s',
+    group count '(X o) s' (o = the one other count of the part, from the reduced alphabet)."""
+    if pos == "lead":
+        return [_ig(s, ("e", a, o)) for a in atoms for o in others]
+    if pos == "elem":
+        return [_ig(o, ("e", a, s)) for a in atoms for o in others]
+    if pos == "group":
+        return [("x", (_ig("", ("e", a, o)),), (), s) for a in atoms for o in others]
+    raise ValueError(pos)
+
+
+def cross_follow(T, follow, b_atoms, M2, N2, C2):
+    """Composites (groups, seps) that start with the carrier T and continue with the follower, as far as the text says
+    how the string splits (joinable)."""
+    if follow == "end":
+        return [((T,), ())]
+    es = [("e", b, m) for b in b_atoms for m in M2]
+    kind = follow.rsplit("-", 1)[-1]
+    sep = _FSEP[follow.rsplit("-", 1)[0]] if "-" in follow else ""
+    if follow == "atom" and T[0] == "i":                 # the next element of the same implicit group: '2.5HO', 'H2.5O'
+        return [((_ig(T[1], *(T[2] + (e,))),), ()) for e in es]
+    if kind == "atom":
+        nxt = [_ig(n, e) for n in (N2 if sep else ("",)) for e in es]
+    else:
+        nxt = [("x", (_ig("", e),), (), c) for e in es for c in C2]
+    return [((T, g), (sep,)) for g in nxt if joinable(T, sep, g)]
+
+
+def count_cross(tier):
+    """[(cell name, [tree, ...])]: position (leading / element / group count) x nesting depth (top level, inside one
+    parenthesised group = the nested counts, inside two) x count shape x follower.  Inside parentheses 'end' means that
+    ')' and the count of the enclosing group follow; that count then runs over all shapes as well."""
+    q = tier == "quick"
+    S = ("",) + SHAPES
+    A = KINDS4                                       # the counted atom: element, isotope, ion, isotope ion ('H2.5', 'O[18]2.5', 'Fe{2+}2.5')
+    Bq = ("O",) if q else ("O", "Clm")               # the atom that follows; differs from every counted atom
+    O2 = ("", "2")
+    out = []
+    for pos in CROSS_POSITIONS:
+        for depth in (0, 1) if q else (0, 1, 2):
+            deep = depth > 0 and (q or depth > 1)    # reduced context in the deeper levels
+            for follow in CROSS_FOLLOWS:
+                if q and depth > 0 and follow.startswith("blank-plus-blank"):
+                    continue
+                trees = []
+                for s in SHAPES:
+                    N2 = ("", "2", ".5", "2.5") if deep else S          # leading count of the follower: the count pair 's sep n'
+                    C2 = ("", "2.5") if deep else ("", "2", "2.5")
+                    for T in cross_carriers(pos, s, KINDS2 if deep else A, O2):
+                        for gs, ss in cross_follow(T, follow, Bq[:1] if deep else Bq, O2, N2, C2):
+                            if depth == 0:
+                                trees.append(("c", gs, ss))
+                                if not q or "-" not in follow:          # the same after another group: 'D 2.5H', 'D (H)2.5O'
+                                    trees.append(("c", (_ig("", ("e", "D", "")),) + gs, (" ",) + ss))
+                                continue
+                            # the count of the enclosing group: every shape where it follows the position directly
+                            W = S if follow == "end" else ("", "2") if q else ("", "2", "2.5")
+                            for w in W:
+                                X = ("x", gs, ss, w)
+                                if depth == 2:
+                                    for w2 in ("", "2.5"):
+                                        trees.append(("c", (("x", (X,), (), w2),), ()))
+                                        trees.append(("c", (("x", (_ig("", ("e", "D", "")), X), (" ",), w2),), ()))
+                                else:
+                                    trees.append(("c", (X,), ()))
+                if trees:
+                    out.append(("cross:%s%d:%s" % (pos, depth, follow), trees))
+    return out
+
+
 def str_cases(tier, alphabet):
     """Flat list of (tier name, walk?, tree), each distinct text once."""
     tok = TOK[alphabet]
     seen = set()
     out = []
-    for name, walk, trees in str_tiers(tier):
+    for name, walk, trees in str_tiers(tier) + [(n, False, t) for n, t in count_cross(tier)]:
         for t in trees:
             text = t_text(t, tok)
             if text in seen:
@@ -419,6 +521,13 @@ class OpModel(explore.Model):
                     tree = sub
                     break
             else:
+                # a parenthesised group that is wrong while its content alone is right: the cause is the group
+                # count, so name it on the simplest content (one bare element) if that is wrong as well
+                g = tree[1][0] if tree[0] == "c" and len(tree[1]) == 1 else None
+                if g is not None and g[0] == "x":
+                    plain = ("c", (("x", (("i", "", (("e", _first_atom(g), ""),)),), (), g[3]),), ())
+                    if plain != tree and self.s_wrong(plain):
+                        return plain
                 return tree
 
     # ---- reference checks
